@@ -471,9 +471,10 @@ func writeEvidence(prop, tier string, seed int, rr *runResult, groups []*oblGrou
 		"property_id": prop, "tier": tier, "seed": seed, "level": "proof", "coverage": cov,
 		"assumptions": assumptions, "wall_s": rr.wall, "violations": violations,
 	}
-	os.MkdirAll(filepath.Join(verifDir, "evidence"), 0o755)
+	evDir := envOr("GOVC_EVIDENCE_DIR", filepath.Join(verifDir, "evidence")) // selftest runs on mutated trees write elsewhere
+	os.MkdirAll(evDir, 0o755)
 	b, _ := json.MarshalIndent(ev, "", " ")
-	os.WriteFile(filepath.Join(verifDir, "evidence", prop+".json"), b, 0o644)
+	os.WriteFile(filepath.Join(evDir, prop+".json"), b, 0o644)
 }
 
 // cmdBaseline regenerates /verif/baseline/obligations.json from the current tree (developer command, never run by checks).
